@@ -64,6 +64,8 @@ class Direct(Harness):
     def __init__(self, target, source, sign=1):
         self.target, self.source, self.sign = target, source, sign
         self.name = f"C07:{target}.from_{source.replace('EulerB321', 'Euler')}" + ("" if sign == 1 else ":negq")
+        if (target, source) == ("Mrp", "Quat"):
+            self.shards = 6  # one branch cell is empty but hard to refute: its obligations run into their time caps
 
     def build(self):
         S, T = G(self.source), G(self.target)
